@@ -42,6 +42,14 @@ type RaceProng interface {
 	RaceRuns(tier string) int
 }
 
+// ProcessStateful is implemented by engines whose code under test keeps
+// process-wide state the simulator cannot reset (the decoration registry, and
+// whatever package-level state a change might add).  Their violations are
+// confirmed and minimised with one fresh process per candidate execution.
+type ProcessStateful interface {
+	ProcessStateful() bool
+}
+
 // Pinner is optionally implemented by engines that enumerate faults inside
 // Exec: Pin rewrites a failing script so that it names the single fault.
 type Pinner interface {
@@ -148,11 +156,11 @@ func genItem(r *Rng, n int, level int) Item {
 	case 10:
 		return Item{K: "E", S: genText(r, n, true)}
 	case 11:
-		return Item{K: "Z", S: genText(r, n, true), H: r.Range(-1, 4), W: r.Range(-2, 12)}
+		return Item{K: "Z", S: genText(r, n, true), H: r.Range(-3, 4), W: r.Range(-6, 12)}
 	case 12:
-		return Item{K: "H", S: genText(r, n, true), H: r.Range(-1, 4)}
+		return Item{K: "H", S: genText(r, n, true), H: r.Range(-3, 4)}
 	case 13:
-		return Item{K: "W", S: genText(r, n, true), W: r.Range(-2, 12)}
+		return Item{K: "W", S: genText(r, n, true), W: r.Range(-6, 12)}
 	case 14:
 		return Item{K: "J", S: genText(r, n, true), N: r.Intn(4)}
 	}
